@@ -1093,7 +1093,7 @@ def _work(task):
 # ------------------------------------------------------------------------------------------
 # enumeration
 
-def _histories(depth, alpha='CQDGX', need_raise=False):
+def _histories(depth, alpha='CQDGX', need_raise=False, maxlive=3):
     """All event sequences of exactly `depth` events over the alphabet (every shorter sequence
     is a prefix of one of them and is judged after each event).  X is enabled only where a helper
     is alive in a run from a fresh Environment (abstract helper state none/alive/
@@ -1106,7 +1106,7 @@ def _histories(depth, alpha='CQDGX', need_raise=False):
                 out.append(list(seq))
             return
         evs = []
-        if len(live) < 3:
+        if len(live) < maxlive:
             evs += [e for e in 'CR' if e in alpha]
         for kind in 'QED':
             if kind in alpha:
@@ -1197,10 +1197,10 @@ def _levels(tier, refs):
 
     if tier == 'quick':
         hlevel('histories depth 5 over C,Q,D,G,X', _histories(5))
-        hlevel('histories depth 5 over C,R,E,D,G with a raising request',
-               _histories(5, 'CREDG', True))
-        hlevel('histories depth 4 over C,R,Q,E,D,G,X with a raising request',
-               _histories(4, 'CRQEDGX', True))
+        hlevel('histories depth 5 over C,R,E,D,G with a raising request, <=2 live Scripts',
+               _histories(5, 'CREDG', True, 2))
+        hlevel('histories depth 4 over C,R,E,D,G,X with a raising request, <=2 live Scripts',
+               _histories(4, 'CREDGX', True, 2))
     else:
         hlevel('histories depth 6 over C,Q,D,G,X', _histories(6))
         hlevel('histories depth 5 over C,R,Q,E,D,G,X with a raising request',
